@@ -20,7 +20,7 @@
                                                   FALSE at state level as long as D3 stands: paging_midepoch_counterexample.
                                                   NOT proved at state level even without D3: that nothing pending
                                                   is lost over an epoch (two-run equality); regression + differential run.
-    exact amounts (state level) ................ distribute_pays_exactly, endBlock_pays_exactly, end_step_pays_exactly,
+    exact amounts (state level) ................ distribute_pays_exactly, distribute_gauges_exactly, endBlock_pays_exactly, end_step_pays_exactly,
                                                   asset_due_is_sum_of_lockRewards (what an account gains in a distribution
                                                   is Σ lockReward over its qualifying locks, over the gauges distributed)
     sponsored streams (re-targeted at every epoch start from x/sponsorship's distribution, an input of the model) are
@@ -170,6 +170,13 @@ theorem gauge_hands_out_exactly (s : State) (g : Gauge) (tr tr' : Tracker) (c : 
     amt c i = dueTotal s g i :=
   (calcGauge_exact s g tr tr' c h 0 i).2
 
+/-- ... and every gauge handed in (a copy of a stored gauge: same kind and distributed coins, coins possibly topped
+    up) is stored afterwards with its distributed coins grown by exactly that amount -/
+theorem distribute_gauges_exactly (s : State) (gs : List Gauge) (ee : Bool) (s' : State) (hg : GInv s)
+    (hnd : (gs.map (·.id)).Nodup) (hcoh : ∀ g ∈ gs, Coh s.gauges g) (h : incDistribute s gs ee = .ok s') :
+    ∀ g ∈ gs, ∃ g', getG s'.gauges g.id = some g' ∧ ∀ i, amt g'.distributed i = amt g.distributed i + dueTotal s g i :=
+  incDistribute_gauges_exact s gs ee s' hg.ids hnd hcoh h
+
 /-- for an asset gauge (with coins, qualifying locks and an epoch left) `dueG` IS the sum of `lockReward` over the
     account's locks that qualify for the gauge -/
 theorem asset_due_is_sum_of_lockRewards (s : State) (g : Gauge) (d dur : Nat) (hk : g.kind = .asset d dur) (hc : g.coins.isZero = false)
@@ -181,31 +188,36 @@ theorem asset_due_is_sum_of_lockRewards (s : State) (g : Gauge) (d dur : Nat) (h
 
 /-- **state level, the streamer EndBlock in a state satisfying the gauge invariant**: the balance of every account
     other than the two module accounts grows by exactly what the gauges funded in this block owe it; those gauges
-    are copies of stored gauges (same kind, same distributed coins, coins topped up by the streams), ids distinct -/
+    are copies of stored gauges (same kind, same distributed coins, coins topped up by the streams), ids distinct;
+    and each of them is stored afterwards with its distributed coins grown by exactly what it handed out -/
 theorem endBlock_pays_exactly (s s' : State) (hg : GInv s) (h : streamerEndBlock s = .ok s') :
     ∃ gs : List Gauge, (gs.map (·.id)).Nodup ∧ (∀ g ∈ gs, Coh s.gauges g) ∧
-      ∀ a, a ≠ streamerAddr → a ≠ incAddr → ∀ i,
-        amt (s'.bank.get a) i = amt (s.bank.get a) i + (gs.map (dueG s · a i)).sum :=
+      (∀ a, a ≠ streamerAddr → a ≠ incAddr → ∀ i,
+        amt (s'.bank.get a) i = amt (s.bank.get a) i + (gs.map (dueG s · a i)).sum) ∧
+      (∀ g ∈ gs, ∃ g', getG s'.gauges g.id = some g' ∧ ∀ i, amt g'.distributed i = amt g.distributed i + dueTotal s g i) :=
   strDistribute_pays_exactly s _ _ _ _ s' hg h
 
 /-- the same **after every history** (module accounts do not sign), for the `end` step whatever its outcome -/
 theorem end_step_pays_exactly (now mi : Nat) (ops : List Op) (hw : ∀ op ∈ ops, op.wf) :
     ∃ gs : List Gauge, (gs.map (·.id)).Nodup ∧ (∀ g ∈ gs, Coh (run (init now mi) ops).gauges g) ∧
-      ∀ a, a ≠ streamerAddr → a ≠ incAddr → ∀ i,
+      (∀ a, a ≠ streamerAddr → a ≠ incAddr → ∀ i,
         amt ((step (run (init now mi) ops) .end_).2.bank.get a) i =
-          amt ((run (init now mi) ops).bank.get a) i + (gs.map (dueG (run (init now mi) ops) · a i)).sum := by
+          amt ((run (init now mi) ops).bank.get a) i + (gs.map (dueG (run (init now mi) ops) · a i)).sum) ∧
+      (∀ g ∈ gs, ∃ g', getG (step (run (init now mi) ops) .end_).2.gauges g.id = some g' ∧
+        ∀ i, amt g'.distributed i = amt g.distributed i + dueTotal (run (init now mi) ops) g i) := by
   have hg := run_ginv ops _ (init_ginv now mi) hw
   generalize run (init now mi) ops = s at hg ⊢
-  have hnone : ∃ gs : List Gauge, (gs.map (·.id)).Nodup ∧ (∀ g ∈ gs, Coh s.gauges g) ∧
-      ∀ a, a ≠ streamerAddr → a ≠ incAddr → ∀ i, amt (s.bank.get a) i = amt (s.bank.get a) i + (gs.map (dueG s · a i)).sum :=
-    ⟨[], List.nodup_nil, by simp, by simp⟩
+  have hnone : ∀ s0 : State, s0.bank = s.bank → ∃ gs : List Gauge, (gs.map (·.id)).Nodup ∧ (∀ g ∈ gs, Coh s.gauges g) ∧
+      (∀ a, a ≠ streamerAddr → a ≠ incAddr → ∀ i, amt (s0.bank.get a) i = amt (s.bank.get a) i + (gs.map (dueG s · a i)).sum) ∧
+      (∀ g ∈ gs, ∃ g', getG s0.gauges g.id = some g' ∧ ∀ i, amt g'.distributed i = amt g.distributed i + dueTotal s g i) :=
+    fun s0 hb => ⟨[], List.nodup_nil, by simp, by intro a _ _ i; rw [hb]; simp, by simp⟩
   unfold step
   split
-  · exact hnone
+  · exact hnone s rfl
   · simp only
     cases h : streamerEndBlock s with
     | ok s' => exact endBlock_pays_exactly s s' hg h
-    | error e => exact hnone
+    | error e => exact hnone { s with halted := true } rfl
 
 /-- non-vacuity: two locks of account 1 and one of account 2 qualify for gauge 1 (90 coins left, 3 epochs) -/
 example : (let s : State := { locks := [⟨1, 0, 2, 5⟩, ⟨2, 0, 1, 5⟩, ⟨1, 0, 3, 9⟩, ⟨1, 1, 50, 9⟩] }
